@@ -12,14 +12,14 @@ SHARDS = {"quick": 8, "thorough": 16}
 TIMEOUT = {"quick": 900, "thorough": 5400}
 RULE = (
     "histories of 3-15 operations over {mask, unmask, reveal(plate-id sets: fresh, already observed, repeated, unknown), "
-    "save+load, reveal_plate CLI, extract_screen_metadata CLI} on random screens with unique observation tags; reference "
+    "save+load, reveal_plate CLI, extract_screen_metadata CLI} on random screens with unique observation tags, branching (an earlier stage is taken up again) with all earlier stages re-checked for changes after every operation; reference "
     "model = dict plate->bool + immutable row table; after every step mask, rows, plate labels, value bits and the JSON "
     "counters are compared with the model; single-shot cases for the constructor clauses, set_observed and the zero/NaN "
     "refusals. A case is one operation of a history or one single-shot; distinct = (op, args, model state hash); "
     "non-trivial = the screen has >=2 plates and the op is not a no-op on the model"
 )
 ASSUMPTIONS = ["revealing a set consisting only of unknown plate ids may either raise ValueError or return the screen unchanged", "refusal of all-zero values is judged only when every plate of the revealed set is all zero"]
-REQUIRED = {"history_steps_checked": {"quick": 2500, "thorough": 40000}, "reveals_checked": {"quick": 600, "thorough": 10000}, "refusals_checked": {"quick": 100, "thorough": 1500}, "constructor_cases": {"quick": 150, "thorough": 2500}, "cli_steps": {"quick": 100, "thorough": 1500}}
+REQUIRED = {"history_steps_checked": {"quick": 2500, "thorough": 40000}, "reveals_checked": {"quick": 600, "thorough": 10000}, "refusals_checked": {"quick": 100, "thorough": 1500}, "constructor_cases": {"quick": 150, "thorough": 2500}, "cli_steps": {"quick": 100, "thorough": 1500}, "earlier_stage_rechecks": {"quick": 10000, "thorough": 150000}, "branches": {"quick": 200, "thorough": 3000}}
 N_HIST = {"quick": 400, "thorough": 6400}
 
 
@@ -78,7 +78,17 @@ def run_shard(rec, tier, seed, shard, nshards):
             model = Model(screen)
             trace = []
             n_ops = int(rng.integers(3, 16))
+            # every stage of the history stays alive: an operation must never change a screen it was not applied to
+            # (histories may branch: an earlier stage is sometimes taken up again)
+            stages = []
             for oi in range(n_ops):
+                stages.append((screen, dict(model.plate), kit.raw_bytes(np.asarray(screen.observation_mask)), kit.raw_bytes(np.asarray(screen.observations)), kit.array_hash(screen.plate_names)))
+                if oi and rng.random() < 0.2:
+                    bi = int(rng.integers(len(stages)))
+                    screen = stages[bi][0]
+                    model.plate = dict(stages[bi][1])
+                    trace.append(["branch-from-stage", bi])
+                    rec.count("branches")
                 op = str(rng.choice(["reveal", "reveal", "reveal", "reveal_cli", "mask", "unmask", "saveload", "meta_cli"], p=[0.3, 0.15, 0.1, 0.1, 0.07, 0.05, 0.13, 0.1]))
                 name_to_id = dict(zip([str(x) for x in screen.plate_mapping[0]], [int(x) for x in screen.plate_mapping[1]]))
                 id_to_name = {v: k for k, v in name_to_id.items()}
@@ -160,6 +170,11 @@ def run_shard(rec, tier, seed, shard, nshards):
                         ok = meta.get("n_unobserved_plates") == n_un and meta.get("n_observed_plates") == len(model.plate) - n_un and meta.get("n_plates") == len(model.plate) and meta.get("size") == len(model.order)
                         rec.check(ok, "C12/metadata/counters-differ", lambda: "screen_metadata %r, model: %d plates, %d unobserved, %d rows" % (meta, len(model.plate), n_un, len(model.order)), w)
                     rec.count("history_steps_checked")
+                    for si_, (st_scr, st_plate, st_mask, st_obs, st_pn) in enumerate(stages):
+                        rec.count("earlier_stage_rechecks")
+                        same = kit.raw_bytes(np.asarray(st_scr.observation_mask)) == st_mask and kit.raw_bytes(np.asarray(st_scr.observations)) == st_obs and kit.array_hash(st_scr.plate_names) == st_pn
+                        if not rec.check(same, "C12/alias/earlier-screen-changed", lambda: "%s changed the screen of stage %d, to which it was not applied (mask, values or plate labels differ from when that stage was produced)" % (op, si_), w):
+                            stages[si_] = (st_scr, st_plate, kit.raw_bytes(np.asarray(st_scr.observation_mask)), kit.raw_bytes(np.asarray(st_scr.observations)), kit.array_hash(st_scr.plate_names))
                 except Exception as e:
                     rec.violation("C12/op/raises", "%s raised %r\n%s" % (op, e, kit.tb()), w)
                     break
